@@ -95,6 +95,17 @@ C06Part(d) ==
   /\ \A ni \in {1, 2, 3, 9, 30, 99, 299} : \A li \in 1..NLEV : \A ki \in 1..3 :
        Emit(MeanCase("arith", "f32", "ci", ki, li, Probe(NuOf(ni) + 1), TRUE, "base"))
 
+\* levels far outside the tabulated grid (tails of 10^-6 .. 10^-12 on either side) at even degrees of freedom, where the
+\* t distribution function is algebraic and TLC decides the critical value without any table
+\* (far tails only: next to the median the dependency's quantile function has an absolute error of about 10^-11, which is
+\* a relative error of 10^-5 at a two-sided level of 10^-6 - levels nobody uses, left out)
+ExtremeLevels == <<"0.999999", "0.999999999", "0.9999999999", "0.999999999999", "0.99999", "0.000001", "0.000000001", "0.000000000001">>
+C06Extreme(d) ==
+  \A n \in {3, 5, 11, 31} : \A xi \in DOMAIN ExtremeLevels : \A ki \in 1..3 : (xi <= 5 \/ ki # 1) =>
+     Emit([op |-> "mean.ci", fl |-> "arith", ty |-> "f64", style |-> "ci",
+           conf |-> [kind |-> CKinds[ki], level |-> [dec |-> ExtremeLevels[xi]]], li |-> 0,
+           data |-> Probe(n), first |-> TRUE, role |-> "base", extreme |-> TRUE])
+
 \* ---- C04 ----------------------------------------------------------------------------------------
 Seq1(xs) == [rle |-> [i \in DOMAIN xs |-> <<xs[i], 1>>], order |-> "asc"]
 RandSeq(g, n, off, p) == [i \in 1..n |-> V(off + Pick(g, 100 + i, -500, 500), p)]
@@ -215,7 +226,7 @@ C09FoldPart(d) ==
 
 Next == /\ ~done
         /\ done' = TRUE
-        /\ CASE Part = "c01" -> C01Part(done) [] Part = "c06" -> (C06Part(done) /\ UnbalancedUnpaired(done))
+        /\ CASE Part = "c01" -> C01Part(done) [] Part = "c06" -> (C06Part(done) /\ UnbalancedUnpaired(done) /\ C06Extreme(done))
              [] Part = "c04" -> (C04Part(done) /\ ScaledUnpaired(done) /\ UnbalancedUnpaired(done)) [] Part = "c05" -> C05Part(done)
              [] Part = "designed" -> DesignedPart(done) [] Part = "c09fold" -> C09FoldPart(done)
 Spec == Init /\ [][Next]_done
